@@ -1,9 +1,215 @@
 import Driver.Util
-/-! Protocol handlers of the `cli.*` suites. -/
+import StoneVerif.Model.Cli
+/-! Protocol handlers of the `cli.*` suites (C19).
+
+Literal encoding (both directions): `{"k":"null"}`, `{"k":"bool","v":true}`, `{"k":"int","v":"-12"}`,
+`{"k":"float","m":"-12345","e":"-9"}` (the decimal m·10^e; on input also `{"k":"float","t":"1.5e-07"}`,
+Python's `repr`), `{"k":"str","v":"…"}`, `{"k":"other"}`.
+Trees: `["pred", "=" | "!=", attr, lit]`, `["conj", "and" | "or", lhs, rhs]`. -/
 open Lean
 namespace Driver.Cli
+open StoneVerif StoneVerif.Cli
 
-def handle (op : String) (_j : Json) : Except String Json := do
-  throw s!"unknown op {op}"
+def s2l (s : String) : List Char := s.toList
+def l2s (l : List Char) : String := String.ofList l
+def jname (n : Cli.Name) : Json := Json.str (l2s n)
+def jintS (n : Int) : Json := Json.str (toString n)
+
+def litToJson : Lit → Json
+  | .null => Json.mkObj [("k", "null")]
+  | .bool b => Json.mkObj [("k", "bool"), ("v", Json.bool b)]
+  | .int n => Json.mkObj [("k", "int"), ("v", jintS n)]
+  | .float m e => Json.mkObj [("k", "float"), ("m", jintS m), ("e", jintS e)]
+  | .str s => Json.mkObj [("k", "str"), ("v", jname s)]
+  | .other => Json.mkObj [("k", "other")]
+
+def intOfStr (s : String) : Except String Int :=
+  match s.toInt? with
+  | some n => pure n
+  | none => throw s!"bad integer {s}"
+
+/-- `[+-]?digits[.digits][e[+-]?digits]` (Python `repr(float)` of a finite value) as m·10^e -/
+def decOfText (t : List Char) : Except String (Int × Int) := do
+  let (neg, r0) := match t with
+    | '-' :: r => (true, r)
+    | '+' :: r => (false, r)
+    | r => (false, r)
+  let ip := r0.takeWhile Cli.isDigit
+  let r1 := r0.dropWhile Cli.isDigit
+  let (fp, r2) := match r1 with
+    | '.' :: r => (r.takeWhile Cli.isDigit, r.dropWhile Cli.isDigit)
+    | r => ([], r)
+  if ip.isEmpty && fp.isEmpty then throw s!"bad decimal {l2s t}"
+  let ex : Int ← match r2 with
+    | [] => pure 0
+    | 'e' :: '-' :: x => if x.all Cli.isDigit && !x.isEmpty then pure (-(Cli.natOfDigits x : Int)) else throw "bad exponent"
+    | 'e' :: '+' :: x => if x.all Cli.isDigit && !x.isEmpty then pure (Cli.natOfDigits x : Int) else throw "bad exponent"
+    | 'e' :: x => if x.all Cli.isDigit && !x.isEmpty then pure (Cli.natOfDigits x : Int) else throw "bad exponent"
+    | _ => throw s!"bad decimal {l2s t}"
+  let m : Int := (Cli.natOfDigits (ip ++ fp) : Int)
+  pure (if neg then -m else m, ex - fp.length)
+
+def litOfJson (j : Json) : Except String Lit := do
+  let k ← jstr j "k"
+  match k with
+  | "null" => pure .null
+  | "bool" => pure (.bool (← jbool j "v"))
+  | "int" => pure (.int (← intOfStr (← jstr j "v")))
+  | "float" =>
+    match jopt j "t" with
+    | some t => do
+      let (m, e) ← decOfText (s2l (← t.getStr?))
+      pure (.float m e)
+    | none => pure (.float (← intOfStr (← jstr j "m")) (← intOfStr (← jstr j "e")))
+  | "str" => pure (.str (s2l (← jstr j "v")))
+  | "other" => pure .other
+  | _ => throw s!"bad literal kind {k}"
+
+def tokToJson : Tok → Json
+  | .id s => Json.arr #["ID", jname s]
+  | .lpar => Json.arr #["LPAR", "("]
+  | .rpar => Json.arr #["RPAR", ")"]
+  | .and => Json.arr #["AND", "and"]
+  | .or => Json.arr #["OR", "or"]
+  | .neq => Json.arr #["NEQ", "!="]
+  | .eq => Json.arr #["EQ", "="]
+  | .lit l =>
+    let ty := match l with
+      | .null => "NULL" | .bool _ => "BOOLEAN" | .int _ => "INTEGER" | .float _ _ => "FLOAT"
+      | .str _ => "STRING" | .other => "OTHER"
+    Json.arr #[ty, litToJson l]
+
+def exprToJson : Expr → Json
+  | .pred op a v => Json.arr #["pred", (match op with | .eq => "=" | .neq => "!="), jname a, litToJson v]
+  | .conj c l r => Json.arr #["conj", (match c with | .and => "and" | .or => "or"), exprToJson l, exprToJson r]
+
+partial def exprOfJson (j : Json) : Except String Expr := do
+  let a ← j.getArr?
+  match a.toList with
+  | [tag, x, y, z] =>
+    match (← tag.getStr?) with
+    | "pred" =>
+      let op ← match (← x.getStr?) with
+        | "=" => pure Op.eq
+        | "!=" => pure Op.neq
+        | o => throw s!"bad op {o}"
+      pure (.pred op (s2l (← y.getStr?)) (← litOfJson z))
+    | "conj" =>
+      let c ← match (← x.getStr?) with
+        | "and" => pure Conj.and
+        | "or" => pure Conj.or
+        | o => throw s!"bad conj {o}"
+      pure (.conj c (← exprOfJson y) (← exprOfJson z))
+    | t => throw s!"bad tree tag {t}"
+  | _ => throw "bad tree"
+
+def attrsOfJson (j : Json) : Except String Attrs := do
+  let a ← j.getArr?
+  a.toList.mapM fun p => do
+    match (← p.getArr?).toList with
+    | [k, v] => pure (s2l (← k.getStr?), ← litOfJson v)
+    | _ => throw "attr pair expected"
+
+def attrsToJson (a : Attrs) : Json :=
+  Json.arr (a.map fun (k, v) => Json.arr #[jname k, litToJson v]).toArray
+
+def filterErrToJson : FilterError → Json
+  | .illegalChars cs => Json.mkObj [("error", "lex"), ("chars", Json.arr (cs.map fun c => Json.str (String.singleton c)).toArray)]
+  | .syntax _ => Json.mkObj [("error", "syntax")]
+
+def routeOfJson (j : Json) : Except String Route := do
+  pure { name := s2l (← jstr j "name"), version := ← intOfStr (← jstr j "version"),
+         attrs := ← attrsOfJson (← jobj j "attrs") }
+
+def routeToJson (r : Route) : Json :=
+  Json.mkObj [("name", jname r.name), ("version", jintS r.version), ("attrs", attrsToJson r.attrs)]
+
+def nsOfJson (j : Json) : Except String Namespace := do
+  let routes ← (← jarr j "routes").toList.mapM routeOfJson
+  let rbn ← (← jarr j "route_by_name").toList.mapM fun p => do
+    match (← p.getArr?).toList with
+    | [k, r] => pure (s2l (← k.getStr?), ← routeOfJson r)
+    | _ => throw "route_by_name pair expected"
+  let rsbn ← (← jarr j "routes_by_name").toList.mapM fun p => do
+    match (← p.getArr?).toList with
+    | [k, vs] => do
+      let inner ← (← vs.getArr?).toList.mapM fun q => do
+        match (← q.getArr?).toList with
+        | [v, r] => pure (← intOfStr (← v.getStr?), ← routeOfJson r)
+        | _ => throw "at_version pair expected"
+      pure (s2l (← k.getStr?), inner)
+    | _ => throw "routes_by_name pair expected"
+  pure { name := s2l (← jstr j "name"), routes := routes, routeByName := rbn, routesByName := rsbn,
+         dataTypes := (← strList j "data_types").map s2l }
+
+def nsToJson (ns : Namespace) : Json :=
+  Json.mkObj [
+    ("name", jname ns.name),
+    ("routes", Json.arr (ns.routes.map routeToJson).toArray),
+    ("route_by_name", Json.arr (ns.routeByName.map fun (k, r) => Json.arr #[jname k, routeToJson r]).toArray),
+    ("routes_by_name", Json.arr (ns.routesByName.map fun (k, vs) =>
+      Json.arr #[jname k, Json.arr (vs.map fun (v, r) => Json.arr #[jintS v, routeToJson r]).toArray]).toArray),
+    ("data_types", Json.arr (ns.dataTypes.map jname).toArray)]
+
+def apiOfJson (j : Json) : Except String Api := do
+  pure { namespaces := ← (← jarr j "namespaces").toList.mapM nsOfJson,
+         schema := (← strList j "schema").map s2l,
+         schemaByName := (← strList j "schema_by_name").map s2l }
+
+def apiToJson (a : Api) : Json :=
+  Json.mkObj [("namespaces", Json.arr (a.namespaces.map nsToJson).toArray),
+              ("schema", Json.arr (a.schema.map jname).toArray),
+              ("schema_by_name", Json.arr (a.schemaByName.map jname).toArray)]
+
+def optsOfJson (j : Json) : Except String Opts := do
+  let f ← match jopt j "f" with
+    | some t => do pure (some (s2l (← t.getStr?)))
+    | none => pure none
+  pure { filter := f, whitelist := (← strList j "w").map s2l, blacklist := (← strList j "b").map s2l,
+         attributes := (← strList j "a").map s2l }
+
+def cliErrToJson : CliError → Json
+  | .routeFilter _ => Json.mkObj [("error", "route-filter")]
+  | .whitelistMissing n => Json.mkObj [("error", "whitelist-missing"), ("name", jname n)]
+  | .blacklistMissing n => Json.mkObj [("error", "blacklist-missing"), ("name", jname n)]
+  | .attributeUndefined c => Json.mkObj [("error", "attribute-undefined"), ("names", Json.arr (c.map jname).toArray)]
+
+/-- the expression of a request: `tree` (already parsed) or `text` -/
+def exprOfReq (j : Json) : Except String (Except FilterError Expr) := do
+  match jopt j "tree" with
+  | some t => pure (.ok (← exprOfJson t))
+  | none => pure (parseFilter (s2l (← jstr j "text")))
+
+def optBool : Option Bool → Json
+  | some b => Json.bool b
+  | none => Json.null
+
+def handle (op : String) (j : Json) : Except String Json := do
+  match op with
+  | "cli.lex" =>
+    let l := Cli.lex (s2l (← jstr j "text"))
+    pure <| ok [("toks", Json.arr (l.toks.map tokToJson).toArray),
+                ("errors", Json.arr (l.errors.map fun c => Json.str (String.singleton c)).toArray)]
+  | "cli.parse" =>
+    match parseFilter (s2l (← jstr j "text")) with
+    | .ok e => pure <| ok [("tree", exprToJson e)]
+    | .error fe => pure (filterErrToJson fe)
+  | "cli.eval" =>
+    let routes ← (← jarr j "routes").toList.mapM attrsOfJson
+    match ← exprOfReq j with
+    | .ok e => pure <| ok [("vals", Json.arr (routes.map fun r => Json.bool (e.eval r)).toArray)]
+    | .error fe => pure (filterErrToJson fe)
+  | "cli.evalspec" =>
+    let routes ← (← jarr j "routes").toList.mapM attrsOfJson
+    match ← exprOfReq j with
+    | .ok e => pure <| ok [("vals", Json.arr (routes.map fun r => optBool (evalSpec e r)).toArray)]
+    | .error fe => pure (filterErrToJson fe)
+  | "cli.prune" =>
+    let api ← apiOfJson (← jobj j "api")
+    let o ← optsOfJson (← jobj j "opts")
+    match prune o api with
+    | .ok a => pure <| ok [("api", apiToJson a)]
+    | .error e => pure (cliErrToJson e)
+  | _ => throw s!"unknown op {op}"
 
 end Driver.Cli
